@@ -447,7 +447,24 @@ def vc_comp(fn, iterable):
 
 def vc_in(a, b):
     """`a in b` with symbolic a"""
-    from ..core import tokstr
+    from ..core import tokstr, tokparse
+    if isinstance(a, tokparse.PChar):
+        if isinstance(b, str):
+            return a.in_str(b)
+        return a.in_list(list(b))
+    if isinstance(a, tokstr.TokStr) and isinstance(b, (list, tuple)):
+        e = tokparse.single_enum(a)
+        if e is not None:
+            a = e
+        else:
+            alts = []
+            for x in b:
+                r = tokparse.equals(a, x)
+                if r is True:
+                    return True
+                if r is not False:
+                    alts.append(r.z)
+            return SBool(z3.Or(*alts)) if alts else False
     if isinstance(a, SEnum) and isinstance(b, (list, tuple)):
         if all(isinstance(x, str) for x in b):
             alts = [a.z == a.index_of(x) for x in b if a.index_of(x) is not None]
